@@ -582,6 +582,100 @@ def C20(V, tier):
         raise ToolError(f"only {triggered} of {len(jobs)} crash points triggered: vacuous")
 
 
+# ------------------------------------------------------------------------------------------------
+# C18: batching never withholds data
+
+def latency_jobs(tier, rng):
+    jobs = []
+    modes = ["adaptive:1000:20000", "adaptive:64:20000", "adaptive:3:20000", "fixed:1000", "single", "fixed:2"]
+    depths = [1, 2, 3]
+    pars = [1, 2, 3]
+    combos = [(m, d, p) for m in modes for d in depths for p in pars]
+    rng.shuffle(combos)
+    n = 10 if tier == "quick" else 40
+    # make sure every mode occurs
+    chosen = []
+    for m in modes:
+        chosen.append(next(c for c in combos if c[0] == m))
+    chosen += [c for c in combos if c not in chosen][: max(0, n - len(chosen))]
+    for i, (mode, depth, par) in enumerate(chosen):
+        nodes = [{"id": "s", "op": "src", "kind": "channel", "cap": 1024}]
+        cur = "s"
+        for d in range(depth):
+            nodes.append({"id": f"m{d}", "op": "map", "f": "inc", "in": [cur]})
+            # a forward connection is legal only towards equally many or a single replica
+            nodes.append({"id": f"x{d}", "op": rng.choice(["shuffle", "shuffle", "replicate"]), "repl": "one", "in": [f"m{d}"]})
+            cur = f"x{d}"
+        nodes.append({"id": "k", "op": "sink", "kind": "collect_channel", "in": [cur]})
+        k = rng.choice([1, 2, 5])
+        pauses = rng.choice([[0], [0, 40], [0, 5, 120]])
+        feed = []
+        t = 0
+        v = 0
+        for pz in pauses:
+            t += pz
+            feed.append({"at_ms": t, "src": "s", "vals": list(range(v, v + k))})
+            v += k
+        idle = 2500
+        feed.append({"at_ms": t + idle, "close": True})
+        jobs.append({"id": f"lat{i}_{mode}_d{depth}_p{par}", "prog": {"nodes": nodes},
+                     "cfg": {"mode": "local", "par": par}, "batch": mode, "trace": True,
+                     "keep": ["fed", "arrive", "close", "enq", "send", "recv"], "feed": feed,
+                     "hang_ms": 20000, "meta": {"adaptive": mode.startswith("adaptive")}})
+    return jobs
+
+
+def C18(V, tier):
+    from common import run_jobs, read_trace, split_trace_files, validate_parallel
+    import project
+    wd = workdir("C18")
+    rng = random.Random(seed() + 18)
+    jobs = latency_jobs(tier, rng)
+    results, traces = run_jobs(jobs, wd, nproc=min(len(jobs), 12), timeout=600)
+    by_id = {j["id"]: j for j in jobs}
+    for jid, r in results.items():
+        if r.get("hang"):
+            V.add_violation({"prop": "C18", "kind": "job_hang", "job": jid}, replay=by_id[jid])
+        elif not jobsuite.job_ok(r):
+            V.add_violation({"prop": "C18", "kind": "job_panic", "job": jid, "panics": r.get("panics", [])[:2]},
+                            replay=by_id[jid])
+    recs = []
+    for t in traces:
+        for e in read_trace(t):
+            ev = e.get("ev")
+            if ev == "job":
+                recs.append({"ev": "job", "id": e["id"], "adaptive": bool(e.get("meta", {}).get("adaptive"))})
+            elif ev in ("fed", "arrive"):
+                recs.append({"ev": ev, "v": e["v"]})
+            elif ev == "close":
+                recs.append({"ev": "close"})
+            elif ev in ("done", "hang"):
+                r = results.get(e["id"], {})
+                recs.append({"ev": "done", "id": e["id"], "ok": ev == "done" and jobsuite.job_ok(r)})
+    files = split_trace_files(recs, wd, "lat")
+    viols, consumed, states, _ = validate_parallel("Latency", files, wd)
+    for v in viols:
+        V.add_violation(v, replay=by_id.get(v.get("job")))
+    # every buffered element is delivered at the latest when its iteration ends: nothing left in any link
+    lrecs = []
+    for ti, t in enumerate(traces):
+        lrecs += list(project.link_records(read_trace(t), results))
+    lfiles = split_trace_files(lrecs, wd, "link")
+    lv, _, lstates, _ = validate_parallel("Link", lfiles, wd)
+    for v in lv:
+        if v["kind"] == "left_in_link_at_end":
+            v2 = dict(v)
+            v2["prop"] = "C18"
+            v2["kind"] = "pending_after_restart"
+            V.add_violation(v2, replay=by_id.get(v.get("job")))
+    V.coverage["states"] += states + lstates
+    V.coverage["transitions"] += states + lstates
+    V.coverage["traces_validated_against_impl"] += len(jobs)
+    V.coverage["latency_jobs"] = [j["id"] for j in jobs]
+    V.sample({"job": jobs[0]["id"], "feed": jobs[0]["feed"]})
+    V.assumptions += ["the idle period (2.5 s) is two orders of magnitude above depth x max delay (20 ms): the verdict is the order of events, not a measured latency"]
+
+
 def replay(pid, path, V):
     with open(path) as f:
         data = json.load(f)
